@@ -395,9 +395,14 @@ class C11Session(Session):
                 return ("observer.describe", f"describe() raised {type(e).__name__} on a consistent forest")
             # one line for the collection itself + one per descendant (max_elems=10 per level not exceeded here)
             if all(len(getattr(x, "_children", [])) <= 10 for x in [c] + _flatten(c)):
-                if len(txt.splitlines()) != 1 + n_all:
-                    return ("observer.describe", f"describe() shows {len(txt.splitlines()) - 1} entries, "
-                            f"children_all has {n_all}")
+                # (format-agnostic: every member is named by its type, as often as there are members of the type)
+                import collections as _c
+
+                want = _c.Counter(type(x).__name__ for x in [c] + _flatten(c))
+                short = {t: (txt.count(t), n) for t, n in want.items() if txt.count(t) < n}
+                if short:
+                    return ("observer.describe", f"describe() names fewer members than children_all has "
+                            f"({n_all}): {short}")
         if forest_digest(world) != before:
             return ("observer.mutates", "describe()/children_all changed the forest")
         return None
